@@ -27,7 +27,11 @@ import vlib, mmlgen, midinotes
 COQ_TARGET = "props/C13.v"
 THEOREMS = ["C13_runs_maximal", "C13_same_pitch_merge", "C13_mode_gate", "C13_mode_alpe", "C13_mode_bend", "C13_bend_value_range12",
             "C13_mode_port", "C13_mode_port_unfold", "C13_mode_port_ramp", "C13_bend_in_range", "C13_clears", "C13_no_double",
-            "C13_frame", "C13_pointer", "C13_group", "C13_flush_at_end"]
+            "C13_frame", "C13_pointer", "C13_group", "C13_flush_at_end",
+            "C13_bend_value_exact", "C13_bend_value_exact_or_close", "C13_bend_from_accuracy", "C13_bend_from_exact",
+            "C13_bend_from_range12", "C13_port_ramp_accuracy", "C13_port_ramp_accuracy_exact", "C13_port_ramp_accuracy_any_len",
+            "C13_port_ramp_ends", "C13_port_ramp_events", "C13_bend_from_quot_refuted", "C13_port_ramp_within1_refuted",
+            "C13_port_ramp_below_line_refuted"]
 DRIVERS = ["core"]
 RULE = ("1..3 tracks, each a sequence of segments: tied groups of 1..6 lettered notes (pitch patterns: all equal / small pool / "
         "neighbours different / octave jumps up to +-3 octaves, own lengths, gates 10..100, velocities; `&` or `&n`, sometimes a rest "
